@@ -354,6 +354,7 @@ class Check(object):
         self.facts = {}
         self.rules = {}
         self.undecided = []
+        self.pending_errors = []
 
     # rule registry (text goes to the evidence)
     def rule(self, rid, text):
@@ -382,8 +383,9 @@ class Check(object):
     def floor(self, rule, count, minimum, what=""):
         self.floors.append({"rule": rule, "count": count, "floor": minimum, "what": what})
         if count < minimum:
-            raise AnalysisError("floor not met for %s: matched %d instance(s), confirmed by hand %d (%s) - "
-                                "the rule has gone blind" % (rule, count, minimum, what))
+            # deferred: the other rules still run; reported as ANALYSIS-ERROR unless a violation was proved
+            self.pending_errors.append("floor not met for %s: matched %d instance(s), confirmed by hand %d (%s) - "
+                                       "the rule has gone blind" % (rule, count, minimum, what))
 
     def require(self, cond, msg):
         if not cond:
@@ -428,10 +430,13 @@ def finish(chk, t0, seed, error=None, extra_cov=None, out=sys.stdout, write=True
         lines.append("KNOWN-FINDING: property=%s %s at %s: %s (%s)"
                      % (pid, o.rule, o.where, o.text, listed[o.key].get("what", o.detail)))
     status = 0
-    if error is not None:
+    if error is not None and not unlisted:
         lines.append("ANALYSIS-ERROR property=%s %s" % (pid, norm_text(error)))
         status = 2
     elif unlisted:
+        if error is not None:
+            # a proved violation stands on its own; the part of the analysis that could not finish is reported too
+            lines.append("ANALYSIS-INCOMPLETE property=%s %s" % (pid, norm_text(error)))
         status = 1
         if write:
             os.makedirs(replay_dir, exist_ok=True)
